@@ -321,8 +321,110 @@ def job_locate(cfg):
     return res
 
 
+def job_search(cfg):
+    """point location THROUGH the element search (no `elements` argument): enumerated concrete query points - interior, on shared edges / faces, on nodes -
+    evaluated one by one and in small batches, with SYMBOLIC polynomial field coefficients; the search (KD-tree, FFI) runs concretely on the real code"""
+    res = JobResult(cfg)
+    c = new_context()
+    facade.install()
+    et = cfg["elem"]
+    mesh = simlib.gmsh_mesh(et, layers=1)
+    if cfg.get("distorted"):
+        # general (non-parallelogram) quadrangles / hexahedra with straight edges and planar faces: taper x' = x (1 + 0.3 y) [, y' = y (1 + 0.2 z)];
+        # the library inverts the isoparametric map numerically (scipy least_squares, run concretely)
+        Xd = np.array(mesh.coord, dtype=float)
+        x0_, y0_, z0_ = Xd[:, 0].copy(), Xd[:, 1].copy(), Xd[:, 2].copy()
+        Xd[:, 0] = x0_ * (1 + 0.3 * y0_)
+        if mesh.dim == 3:
+            Xd[:, 1] = y0_ * (1 + 0.2 * z0_)
+        mesh = simlib.mesh_from_arrays([(gg.elemType.name, gg.connect) for gg in mesh.dict_groupElem.values()], Xd)
+    if cfg.get("motion") == "R":
+        mesh.Rotate(float(np.degrees(np.arctan2(0.8, 0.6))), (0.3, 0.2, 0.0))
+    g = mesh.groupElem
+    dim, order = g.dim, g.order
+    X = mesh.coord
+    key = f"{et} point location through the element search" + (" (rotated mesh)" if cfg.get("motion") else "") + (" (tapered, non-parallelogram elements)" if cfg.get("distorted") else "")
+    tol_q = TOL if not cfg.get("distorted") else Fraction(1, 10 ** 8)  # iterative inverse map: its own stopping tolerance
+    res.functions |= {"Mesh.Evaluate_dofsValues_at_coordinates", "_GroupElem.Get_Mapping", "_GroupElem._Get_Mapping", "_GroupElem._Get_nearby_elements", "_GroupElem.Get_Elements_Nodes", "_GroupElem._Get_coord_Near"}
+    monos = monomials_total(dim, order)
+    coef = [c.var("f" + "".join(map(str, m)), -1, 1) for m in monos]
+    res.symbols = len(coef)
+
+    def field(pt):
+        tot = 0
+        for cf, m in zip(coef, monos):
+            t = cf
+            for dd, e in enumerate(m):
+                if e:
+                    t = t * Fraction(float(pt[dd])) ** e
+            tot = tot + t
+        return tot
+
+    nodal = np.array([field(X[n]) for n in range(mesh.Nn)], dtype=object)
+    nv = {"TRI": 3, "QUAD": 4, "TETRA": 4, "HEXA": 8, "PRISM": 6}[et.rstrip("0123456789")]
+    conn = g.connect[:, :nv]
+    pts, kinds = [], []
+    for e in range(min(g.Ne, 6)):
+        V = X[conn[e]]
+        pts.append(V[0] * 0.5 + V[1] * 0.25 + V[2] * 0.25 if et.startswith(("TRI", "TETRA")) else V.mean(axis=0))
+        kinds.append("interior")
+        pts.append(0.5 * (V[0] + V[1]))
+        kinds.append("on an edge")
+        pts.append(0.25 * V[1] + 0.75 * V[2])
+        kinds.append("on an edge")
+        pts.append(V[e % nv].copy())
+        kinds.append("on a node")
+    pts = np.array(pts)
+    rng = np.random.default_rng(harness.seed() + 5)
+    batches = [[i] for i in range(len(pts))] + [sorted(rng.choice(len(pts), size=5, replace=False).tolist()) for _ in range(4)] + [list(range(len(pts)))]
+    mark = c.mark()
+
+    def concrete(env, idx):
+        full = {kk: float(v) for kk, v in {**c.shadow, **(env or {})}.items()}
+        cf = [float(as_sym(x).eval(full)) for x in coef]
+        nod = np.array([sum(cc * np.prod([X[n, dd] ** e for dd, e in enumerate(m)]) for cc, m in zip(cf, monos)) for n in range(mesh.Nn)])
+        want = np.array([sum(cc * np.prod([p[dd] ** e for dd, e in enumerate(m)]) for cc, m in zip(cf, monos)) for p in pts[idx]])
+        try:
+            got = np.asarray(mesh.Evaluate_dofsValues_at_coordinates(pts[idx], nod))[:, 0]
+        except Exception as e:
+            return True, {"query_points": pts[idx].tolist(), "raised": repr(e)[:200]}
+        err = float(np.abs(got - want).max())
+        return err > float(tol_q), {"query_points": pts[idx].tolist(), "kinds": [kinds[i] for i in idx], "interpolated": got.tolist(), "exact_polynomial": want.tolist(), "max_error": err}
+
+    import contextlib
+
+    val = None
+    # distorted elements: the numerical inverse map (scipy) must see plain float arrays, so the façade's symbolic mode stays off; the nodal values
+    # are symbolic all the same (object array) and flow through the interpolation N(xi) . values
+    mode = facade.symbolic
+    for idx in batches:
+        with mode():
+            try:
+                val = np.asarray(mesh.Evaluate_dofsValues_at_coordinates(pts[idx], nodal), dtype=object)
+            except Exception as e:
+                res.record(f"{key}: batch of {len(idx)} points is evaluated", Outcome("cex", env={}, how="structure", detail=repr(e)[:200]), lambda env, idx=idx: concrete(env, idx), key=f"{key}: evaluation raises")
+                continue
+        pcs = c.pc_since(mark)
+        worst = None
+        for k, i in enumerate(idx):
+            o = prove_abs_le(as_sym(val[k, 0]) - field(pts[i]), tol_q, pcs, key)
+            if o.status != "held":
+                worst = o
+                break
+        what = kinds[idx[0]] if len(idx) == 1 else f"batch of {len(idx)}"
+        res.record(f"{key}: {what} ({len(idx)} point(s)) reproduces every polynomial of degree {order}", worst or Outcome("held", how="exact"), lambda env, idx=idx: concrete(env, idx),
+                   key=f"{key}: {'single point ' + kinds[idx[0]] if len(idx) == 1 else 'batch'}",
+                   sample=None if len(res.samples) else {"config": key, "obligation": f"for all polynomial fields of degree {order} (symbolic coefficients): value interpolated at the concrete point(s) = polynomial"})
+    if val is not None:
+        o = prove_abs_le(as_sym(val[0, 0]) - field(pts[idx[0]]) - coef[0], TOL, c.pc_since(mark), "twin")
+        res.twin(f"{key} twin", o.status == "cex")
+    res.paths, res.path_conditions = 1, len(c.pc_since(mark))
+    res.stubs |= facade.USED_STUBS
+    return res
+
+
 def job(cfg):
-    return job_locate(cfg) if cfg["kind"] == "locate" else job_motion(cfg)
+    return {"locate": job_locate, "motion": job_motion, "search": job_search}[cfg["kind"]](cfg)
 
 
 def main():
@@ -341,6 +443,11 @@ def main():
     #  coefficients and the tolerance queries are not decided within the budget -> first- and second-order elements only)
     for et in ["TRI3", "QUAD4", "TETRA4"] + (["TRI6", "HEXA8", "PRISM6"] if tier == "thorough" else []):
         configs.append({"kind": "motion", "elem": et, "motion": "TR", "merged": True})
+    for et in ["TRI3", "TRI6", "TETRA4"] + (["TRI10", "TETRA10"] if tier == "thorough" else []):
+        configs.append({"kind": "search", "elem": et})
+    configs.append({"kind": "search", "elem": "TRI3", "motion": "R"})
+    for et in ["QUAD4", "HEXA8"] + (["QUAD8", "QUAD9", "HEXA20"] if tier == "thorough" else []):
+        configs.append({"kind": "search", "elem": et, "distorted": True})
     for et in ["TRI3", "TRI6", "TETRA4"]:
         configs.append({"kind": "locate", "elem": et, "moved": True})
     # elements whose first edge is not along x: their local frame (_Get_sysCoord_e) differs from the global one once the mesh leaves z = 0
